@@ -78,6 +78,18 @@ Clauses(in, out) ==
                   Le(Sub(R(out.rows[i].fl), Mul(AsymLine(in, in.probes[i]), R(S))), Sub(R(out.rows[i + 1].ce), Mul(AsymLine(in, in.probes[i + 1]), R(S))))
             /\ (Region(in, in.probes[i]) = "cool" /\ Region(in, in.probes[i + 1]) = "cool") =>
                   Le(Sub(R(out.rows[i + 1].fl), Mul(AsymLine(in, in.probes[i + 1]), R(S))), Sub(R(out.rows[i].ce), Mul(AsymLine(in, in.probes[i]), R(S))))>>,
+     \* one width beyond the flat-part balance point (i.e. at the stored balance point of the two-sided type) the documented
+     \* kernel gives base + slope * width / e; e is enclosed by 2718/1000 < e < 2719/1000
+     <<"SmoothingFollowsTheExponentialKernel", ok => \A i \in 1..n :
+            LET T == in.probes[i]
+                hw == Sub(Heat(in).flat, Heat(in).asym)
+                cw == Sub(Cool(in).asym, Cool(in).flat)
+            IN /\ (Heat(in).has /\ ~IsZero(hw) /\ Eq(T, Heat(in).asym)) =>
+                     /\ Le(R(out.rows[i].fl), Mul(Add(in.c, Mul(Mul(Heat(in).beta, hw), Q(1000, 2718))), R(S)))
+                     /\ Le(Mul(Add(in.c, Mul(Mul(Heat(in).beta, hw), Q(1000, 2719))), R(S)), R(out.rows[i].ce))
+               /\ (Cool(in).has /\ ~IsZero(cw) /\ Eq(T, Cool(in).asym)) =>
+                     /\ Le(R(out.rows[i].fl), Mul(Add(in.c, Mul(Mul(Cool(in).beta, cw), Q(1000, 2718))), R(S)))
+                     /\ Le(Mul(Add(in.c, Mul(Mul(Cool(in).beta, cw), Q(1000, 2719))), R(S)), R(out.rows[i].ce))>>,
      <<"LoadsNonNegativeExclusiveAndAdditive", ok => \A i \in 1..n : out.rows[i].loadsOk>>,
      <<"LoadOnTheRightSide", ok => \A i \in 1..n :
             /\ (Region(in, in.probes[i]) = "heat" => out.rows[i].heatOnly)
